@@ -568,6 +568,26 @@ class TCPHiddenServiceEndpoint(object):
         self.tcp_listening_port = yield d
         self.local_port = self.tcp_listening_port.getHost().port
 
+        try:
+            port = yield self._create_service_for_listener()
+        except Exception:
+            # the onion service was not created (or its descriptor
+            # never made it out): nothing will ever forward to the
+            # local listener, so don't leave it open
+            listening_port = self.tcp_listening_port
+            self.tcp_listening_port = None
+            yield defer.maybeDeferred(listening_port.stopListening)
+            raise
+        return port
+
+    @defer.inlineCallbacks
+    def _create_service_for_listener(self):
+        """
+        Internal helper for listen(). The local listener exists (it is
+        ``self.tcp_listening_port``, on ``self.local_port``); this
+        adds the onion service forwarding to it, waits for the
+        descriptor upload and returns the TorOnionListeningPort.
+        """
         # XXX can we detect if tor supports Unix sockets here? I guess
         # we could try "unix:/tmp/blarg", and if it fails, try
         # "tcp:0:interface=127.0.0.1" ...?
